@@ -180,6 +180,9 @@ def lookup_case(draw):
     c["qunit_t"] = draw(st.sampled_from(si.TIME_SYMS))
     c["qform"] = draw(st.sampled_from(["uv", "str", "number"]))
     c["policy"] = draw(st.sampled_from(["closest", "infeq", "supeq"]))
+    # a second query on the same trajectory object: the same number in another time unit (or None: no second query)
+    c["again_unit"] = draw(st.one_of(st.none(), st.sampled_from(si.TIME_SYMS)))
+    c["again_form"] = draw(st.sampled_from(["uv", "str"]))
     return c
 
 
@@ -241,6 +244,25 @@ def check_lookup(ctx, c):
     if got != want:
         raise Violation("get_sample_index(%r, %r) = %r, reference %r (sample times %s %s)" % (
             arg if form != "uv" else str(arg), c["policy"], got, want, [float(v) for v in tf], c["tunit"]), key="lookup:" + c["policy"])
+    # the same trajectory object asked again: same number, another unit; then the first question once more
+    u2 = c.get("again_unit")
+    if u2 is not None and u2 != val_unit:
+        q2 = F(val) * si.TIME[u2] / scale_own
+        marks = list(tf) + [(tf[k] + tf[k + 1]) / 2 for k in range(n - 1)]
+        tol = F(1, 10 ** 9) * (abs(tf[-1]) + abs(tf[0]) + 1)
+        if not any(abs(q2 - m) <= tol for m in marks):
+            ctx.count("second-query-other-unit")
+            arg2 = S.UnitValue(val, u2) if c["again_form"] == "uv" else "%r %s" % (val, u2)
+            want2 = ref_lookup(tf, q2, c["policy"])
+            got2 = sut_call("get_sample_index", traj.get_sample_index, arg2, c["policy"])
+            if got2 != want2:
+                raise Violation("get_sample_index(%s, %r) = %r, reference %r, when asked after get_sample_index(%s, %r) on the same "
+                                "trajectory (sample times %s %s)" % (arg2, c["policy"], got2, want2, arg, c["policy"],
+                                                                     [float(v) for v in tf], c["tunit"]), key="lookup:second-query")
+        again = sut_call("get_sample_index", traj.get_sample_index, arg, c["policy"])
+        if again != want:
+            raise Violation("get_sample_index(%s, %r) = %r the second time, %r the first time" % (arg, c["policy"], again, want),
+                            key="lookup:repeat")
 
 
 # ---- simulated trajectories -----------------------------------------------------------------------
